@@ -681,7 +681,18 @@ def _domain_case(rng):
         lo = max(0.04, 2 / (xi * nxseg), 60 / nxseg)  # >= 4 lines per bandwidth, >= 30 periods in the half record
         if lo >= 0.25:
             continue
-        return fs, nxseg, xi, rng.uniform(lo, 0.25), rng.randint(2, 6), rng.uniform(4.0, 8.0)
+        fnr = rng.uniform(lo, 0.25)
+        if rng.random() < 0.25 and round(fnr * fs) >= 1 and lo <= round(fnr * fs) / fs <= 0.25:
+            # a natural frequency that is a whole number of Hz: the caller then writes it as an integer (see _selform)
+            fnr = round(fnr * fs) / fs
+        return fs, nxseg, xi, fnr, rng.randint(2, 6), rng.uniform(4.0, 8.0)
+
+
+def _selform(fn):
+    """the selected frequency as a user writes it: a whole number of Hz as a Python int (or an integer array), else a float"""
+    if float(fn).is_integer():
+        return [int(fn)] if int(fn) % 2 else np.array([int(fn)])
+    return [fn]
 
 
 def _analytic(fs, nxseg, xi, fnr, phi, level=None):
@@ -705,7 +716,7 @@ def _mac(x, y):
 
 def _run_fn(fdd, freq, Sy, fs, fn, xi, nxseg, method, kbw):
     bw = 2 * xi * fn
-    Fn, Xi, Phi, _ = fdd.EFDD_mpe(Sy, freq, 1 / fs, [fn], "per", method=method, DF1=max(2 * fs / nxseg, bw), DF2=kbw * bw)
+    Fn, Xi, Phi, _ = fdd.EFDD_mpe(Sy, freq, 1 / fs, _selform(fn), "per", method=method, DF1=max(2 * fs / nxseg, bw), DF2=kbw * bw)
     return float(np.ravel(Fn)[0]), float(np.ravel(Xi)[0]), np.asarray(Phi)[:, 0]
 
 
@@ -735,9 +746,9 @@ def _run_class(fdd, freq, Sy, fs, fn, xi, nxseg, method, kbw):
     Sval, Svec = fdd.SD_svalsvec(Sy)
     alg.result = alg.ResultCls(freq=freq, Sy=Sy, S_val=Sval, S_vec=Svec)
     bw = 2 * xi * fn
-    sel = [fn]
+    sel = _selform(fn)
     ss.mpe("a", sel_freq=sel, DF1=max(2 * fs / nxseg, bw), DF2=kbw * bw)
-    if sel != [fn]:
+    if list(sel) != [fn]:
         raise AssertionError("mpe modified the caller's sel_freq")
     return float(alg.result.Fn[0]), float(alg.result.Xi[0]), np.asarray(alg.result.Phi)[:, 0]
 
@@ -978,6 +989,8 @@ def oracle(ctx, scale):
         ctx.count("oracle_fs_kHz" if fs >= 1000 else "oracle_fs_below_kHz")
         ctx.count(f"oracle_nxseg_{nxseg}")
         ctx.count("oracle_via_class" if via_class else "oracle_via_function")
+        if float(fnr * fs).is_integer():
+            ctx.count("oracle_sel_freq_written_as_integer")
     ctx.dist["oracle_class_object_reused"] = _RUN_CLASS["reused"]
 
 
